@@ -12,7 +12,7 @@
    /proc/<pid>/stat.  Without that psutil cannot tell a process from a later owner of its PID (is_running() stays
    True, == is False against identified objects); what is demanded and proved there -- for EVERY history -- is in
    the second group of theorems below (C02_identity_never_changes ... C02_example_no_identity). *)
-From PV Require Import Proc.Spec Proc.Proofs Proc.ProofsPure.
+From PV Require Import Proc.Spec Proc.ProofsInv Proc.ProofsStep Proc.Proofs Proc.ProofsPure.
 
 (* a == b exactly when both objects were created for the same process start ... *)
 Theorem C02_eq_iff_same_incarnation : forall h a b,
@@ -101,6 +101,27 @@ Theorem C02_is_running_monotone : forall h1 h2 o,
   outcome_of (run (h1 ++ h2)) (EC (IsRunning o)) = Val (RBool false).
 Proof. exact is_running_monotone. Qed.
 Print Assumptions C02_is_running_monotone.
+
+(* wait() / wait_procs() on a PID that os.kill / os.waitpid do not see in the caller's PID namespace (PROCFS_PATH
+   points at a foreign procfs): [Wait o false] returns None at once -- and every later is_running(), on that
+   object or any other, still follows the process table (all theorems above are over histories that contain
+   such calls; this spells one instance out) *)
+Theorem C02_wait_foreign_harmless : forall h o o',
+  wf_hist h = true -> has_obj (run h) o = true -> has_obj (run h) o' = true -> 0 < obj_pid (run h) o ->
+  (outcome_of (run h) (EC (Wait o false)) = Val RNone)
+  /\ outcome_of (next (run h) (EC (Wait o false))) (EC (IsRunning o'))
+     = Val (RBool (alive (run h) (g_inc (run h) o'))).
+Proof. exact wait_foreign_harmless. Qed.
+Print Assumptions C02_wait_foreign_harmless.
+
+(* wait_procs([o], timeout=0), whether or not the caller's namespace sees the PID: a process still in the table
+   is not reported gone; a process gone whose PID nobody has is *)
+Theorem C02_wait_procs_follows_table : forall w o vis, Inv w -> has_obj w o = true -> 0 < obj_pid w o ->
+  (alive w (g_inc w o) = true -> outcome_of w (EC (WaitProcs o vis)) = Val (RBool false))
+  /\ (alive w (g_inc w o) = false -> owner w (obj_pid w o) = None ->
+      outcome_of w (EC (WaitProcs o vis)) = Val (RBool true)).
+Proof. exact wait_procs_answer. Qed.
+Print Assumptions C02_wait_procs_follows_table.
 
 (* ---- consistency and stability of ==, hash() and is_running() over the whole life of ONE object, after EVERY
    history: events in any order, well formed or not, including Deny/Allow events (the stat file of a PID cannot be
